@@ -956,9 +956,9 @@ func genC17(w *bufio.Writer, rng *hx.Rng, tier string) {
 		}
 	}
 	// --- C: random structured cases
-	n := 1500
+	n := 8000
 	if thorough {
-		n = 60000
+		n = 250000
 	}
 	for i := 0; i < n; i++ {
 		c17Random(rng).emit(w)
